@@ -169,12 +169,27 @@ FUNCS = {
     "method-argsort": (1, lambda A, B: A.argsort(), "bare"),
     "method-searchsorted": (2, lambda A, B: np.sort(A).searchsorted(B[0]), "bare"),
     "method-tolist": (1, lambda A, B: A.tolist()[1], "a"),
+    "method-put": (2, lambda A, B: (lambda C: (C.put(0, B[0]), C)[1])(A.__class__(A.magnitude.copy(), A.units)), "a"),
+    "method-put-array": (2, lambda A, B: (lambda C: (C.put([0, 2], B[:2]), C)[1])(A.__class__(A.magnitude.copy(), A.units)), "a"),
+    "method-fill": (2, lambda A, B: (lambda C: (C.fill(B[0]), C)[1])(A.__class__(A.magnitude.copy(), A.units)), "b"),
+    "setitem-slice": (2, lambda A, B: (lambda C: (C.__setitem__(slice(0, 2), B[:2]), C)[1])(A.__class__(A.magnitude.copy(), A.units)), "a"),
+    "method-flat": (1, lambda A, B: list(A.flat)[2], "a"),
+    "method-T": (1, lambda A, B: A.T, "a"),
+    "method-flatten": (1, lambda A, B: A.flatten(), "a"),
+    "method-reshape": (1, lambda A, B: A.reshape((3, 1)), "a"),
+    "method-min": (1, lambda A, B: A.min(), "a"),
+    "method-argmax": (1, lambda A, B: A.argmax(), "bare"),
+    "method-nonzero": (1, lambda A, B: A.nonzero(), "bare"),
+    "method-compress": (1, lambda A, B: A.compress([True, False, True]), "a"),
+    "method-repeat": (1, lambda A, B: A.repeat(2), "a"),
+    "len": (1, lambda A, B: len(A), "bare"),
+    "ndim-shape": (1, lambda A, B: (A.ndim, A.shape), "bare"),
     "getitem": (1, lambda A, B: A[1], "a"),
     "iter": (1, lambda A, B: list(A)[2], "a"),
 }
 del FUNCS["cumprod-dimensionless"]
 
-SAME_DIM_REQUIRED = {"mod", "remainder", "fmod-operator", "floor_divide", "floordiv-operator", "clip-max-only", "clip-min-only", "clip-keywords", "method-clip-max-only", "method-clip-min-keyword", "insert", "method-searchsorted", "add", "subtract", "maximum", "minimum", "equal", "not_equal", "less", "less_equal", "greater", "greater_equal", "sum-initial", "clip", "method-clip", "where", "concatenate", "hstack", "vstack", "stack", "append", "isin", "searchsorted", "pad", "linspace"}
+SAME_DIM_REQUIRED = {"method-put", "method-put-array", "setitem-slice", "mod", "remainder", "fmod-operator", "floor_divide", "floordiv-operator", "clip-max-only", "clip-min-only", "clip-keywords", "method-clip-max-only", "method-clip-min-keyword", "insert", "method-searchsorted", "add", "subtract", "maximum", "minimum", "equal", "not_equal", "less", "less_equal", "greater", "greater_equal", "sum-initial", "clip", "method-clip", "where", "concatenate", "hstack", "vstack", "stack", "append", "isin", "searchsorted", "pad", "linspace"}
 
 
 DIVISORS_NONZERO = {"mod", "remainder", "fmod-operator", "floor_divide", "floordiv-operator"}
